@@ -3,6 +3,7 @@ package drive
 import (
 	"encoding/json"
 	"fmt"
+	"math"
 	"math/rand"
 	"os"
 	"strconv"
@@ -63,7 +64,7 @@ func c11RandVal(r *rand.Rand) c11Val {
 	case x < 70:
 		return c11Val{T: []string{"i", "i64"}[r.Intn(2)], I: []int64{0, 1, -1, 200, 404, 1 << 40}[r.Intn(6)]}
 	case x < 82:
-		return c11Val{T: "f", F: []float64{1.5, 2, 0.1, 1e21, 200, -3.25}[r.Intn(6)]}
+		return c11Val{T: "f", F: []float64{1.5, 2, 0.1, 1e21, 200, -3.25, 1000000, -0.0, 9223372036854775807, 9223372036854775808, -9223372036854775808, 1152921504606846976, 0.5, 1e-7, 4503599627370497.5}[r.Intn(15)]}
 	case x < 90:
 		return c11Val{T: "b", B: r.Intn(2) == 0}
 	case x < 96:
@@ -249,12 +250,22 @@ func (v c11Val) coq() string {
 	case "i", "i64":
 		return "(VInt " + cq.Z(v.I) + ")"
 	case "f":
-		return "(VOracle " + c11Str(strconv.FormatFloat(v.F, 'f', -1, 64)) + " " + c11Str(fmt.Sprintf("%v", v.F)) + ")"
+		// exact value: (-1)^neg * mant * 2^exp; the 'f' text of non-whole values is an oracle
+		bits := math.Float64bits(v.F)
+		neg := bits>>63 == 1
+		e := int64((bits >> 52) & 0x7ff)
+		mant := bits & (1<<52 - 1)
+		if e == 0 {
+			e = -1074
+		} else {
+			mant |= 1 << 52
+			e -= 1075
+		}
+		return fmt.Sprintf("(VFloat %s %s %s %s)", cq.Bool(neg), cq.N(mant), cq.Z(e), c11Str(strconv.FormatFloat(v.F, 'f', -1, 64)))
 	case "b":
 		return "(VBool " + cq.Bool(v.B) + ")"
 	case "u":
-		s := fmt.Sprintf("%v", uint64(v.I))
-		return "(VOracle " + c11Str(s) + " " + c11Str(s) + ")"
+		return "(VOracle " + c11Str(fmt.Sprintf("%v", uint64(v.I))) + ")"
 	}
 	return "VNil"
 }
